@@ -262,6 +262,25 @@ pub fn hand_written() -> Vec<Seed> {
          fn f(t: Tri, k: u8) -> u8 { match t { B(v) if v > k => v, A => 1, _ if k == 0 => 2, _ => k } }\n",
     );
     s(
+        "match-four-variants",
+        "enum Q4 { A, B(u8), C(u8, bool), D }\n\
+         fn f(q: Q4, k: u8) -> u8 { match q { A => 0, B(v) if v > k => v, B(v) => k, C(v, fl) => if fl { v } else { k }, D => 1 } }\n\
+         fn g(q: Q4) -> bool { match q { C(v, fl) => fl, B(v) => true, D => false, A => false } }\n\
+         fn h(k: u8) -> u8 { f(Q4.B(k), k) + f(Q4.C(k, true), 1) + f(Q4.A, 2) + f(Q4.D, 3) }\n",
+    );
+    s(
+        "match-five-unit-variants",
+        "enum Day { Mon, Tue, Wed, Thu, Fri }\n\
+         fn f(d: Day, a: i32) -> i32 { match d { Mon => a, Tue => a + 1, Wed => { a + 2 } Thu => a * 2, Fri => 0 } }\n",
+    );
+    s(
+        "match-two-variants",
+        "enum E { Bar, Baz }\n\
+         fn f(e: E) -> i32 { match e { Bar => 1, Baz => 2 } }\n\
+         fn g(o: Option[i32]) -> i32 { match o { Some(y) => 1, None => 2 } }\n\
+         fn h(r: Result[i32, String], c: bool) -> i32 { match r { Ok(v) if c => v, Ok(v) => 0, Err(e) => 2 } }\n",
+    );
+    s(
         "match-blocks",
         "fn f(x: Option[u16], b: u16) -> u16 { let r: u16 = 1; match x { Some(y) => { r = r + y; } None => { r = b; } } r }\n",
     );
